@@ -355,7 +355,7 @@ func (d *CIDFontType2) MakeFont() font.Instance {
 		CIDFontType2: d,
 		codec:        codec,
 		defaultText:  defaultText,
-		cache:        make(map[charcode.Code]font.Code),
+		cache:        make(map[codeKey]font.Code),
 	}
 }
 
@@ -364,7 +364,7 @@ type t2Font struct {
 	codec       *charcode.Codec
 	defaultText map[cmap.CID]string
 	mu          sync.Mutex
-	cache       map[charcode.Code]font.Code
+	cache       map[codeKey]font.Code
 }
 
 var _ font.Instance = (*t2Font)(nil)
@@ -408,7 +408,8 @@ func (f *t2Font) Codes(str pdf.String) iter.Seq[font.Code] {
 			code, k, isValid := f.codec.Decode(str)
 
 			f.mu.Lock()
-			res, seen := f.cache[code]
+			key := codeKey{code, k, isValid}
+			res, seen := f.cache[key]
 			if !seen {
 				codeBytes := str[:k]
 				if isValid {
@@ -434,7 +435,7 @@ func (f *t2Font) Codes(str pdf.String) iter.Seq[font.Code] {
 				if isValid {
 					res.Text = f.lookupText(f.defaultText, res.CID, codeBytes)
 				}
-				f.cache[code] = res
+				f.cache[key] = res
 			}
 			f.mu.Unlock()
 
